@@ -17,6 +17,9 @@ Tie, checked on every run:
       EF  ElasticFoundationForce (checks/C37_ef.py): mesh sphere on half space / analytic sphere / mesh with and without
           parameters (mesh-on-mesh with both parameter sets = areaScale 1/2); forces and PE; per-face geometry from the implementation;
           plus the implementation-only finite-difference predicate force = -grad PE on static scenes;
+  (A) action and reaction (C37_ar_*): rigid body forces of CompliantContactSubsystem scenes (Hertz, brick/half-space, mesh spheres with
+      a patch moment; plate on Ground or moving) = extracted application step applied to the reported ContactForces; and on every scene
+      of every element the net force and net moment over all bodies incl. Ground must vanish (implementation alone);
   (S) failing-input search on the implementation alone (always run on the HC cases; more on break): sign of the normal
       component, documented magnitude, tangent plane, friction opposing slip and below the limit.
 Known finding replayed on the real code: SmoothSphereHalfSpaceForce's normal force is attractive for separating speeds
@@ -299,10 +302,12 @@ def corr_hc(ctx, exe, drv, n, isolated_n):
     mouts, err = run_lines(drv, mlines)
     if len(mouts) != len(mlines):
         ctx.broken.append(('ocaml:C37_drv:HC', 'driver produced %d lines for %d cases: %s' % (len(mouts), len(mlines), err[-300:]))); return
+    arst = {}
     dis = 0; nontriv = set(); hist = {'contacts': 0, 'active': 0, 'clipped': 0, 'nonpoint': 0, 'multi_with_clipped_before_active': 0, 'sphere_sphere': 0}
     first = None
     for idx, (((nums, info), p), mo) in enumerate(zip(zip(cases + iso, parsed), mouts)):
         impl = p[3] + p[4]; model = parse_floats(mo)
+        bb = p[0][1:]; ar_predicate(ctx, 'HuntCrossleyForce', lines[idx], [bb[1 + 9 * i: 4 + 9 * i] for i in range(int(bb[0]))], p[3], arst)
         ok = agree(impl, model)
         cs = p[2]; nc = int(cs[0]); recs = [cs[1 + 11 * i: 12 + 11 * i] for i in range(nc)]
         hist['contacts'] += nc; hist['nonpoint'] += sum(1 for x in recs if not int(x[2]))
@@ -314,6 +319,7 @@ def corr_hc(ctx, exe, drv, n, isolated_n):
             dis += 1
             if first is None: first = (lines[idx], impl, model, mlines[idx])
     ctx.add_cases(len(lines), len(nontriv), [{'mode': 'HC', 'input': lines[0][:400], 'impl_forces_pe': parsed[0][3] + parsed[0][4], 'model': parse_floats(mouts[0])}])
+    ar_finish(ctx, 'HuntCrossleyForce', arst)
     ctx.extra.setdefault('correspondence', {})['HC'] = {'cases': len(lines), 'disagreements': dis, 'rtol': 1e-9, **hist,
         'velocity_categories': count([c for (nums, info) in cases + iso for c in info['cats']])}
     if first:
@@ -391,9 +397,10 @@ def corr_ss(ctx, exe, drv, n):
     mouts, err = run_lines(drv, [m[0] for m in ml])
     if len(mouts) != len(ml):
         ctx.broken.append(('ocaml:C37_drv:SS', 'driver produced %d lines for %d cases' % (len(mouts), len(ml)))); return
-    dis = 0; first = None; nontriv = 0; attractive = 0; pred_bad = None
+    dis = 0; first = None; nontriv = 0; attractive = 0; pred_bad = None; arst = {}
     for ((nums, info), p), (m, si, hi), mo in zip(zip(cases, parsed), ml, mouts):
         F = p[2]; impl = F[6 * si: 6 * si + 6] + F[6 * hi: 6 * hi + 6] + p[3]
+        bb = p[0][1:]; ar_predicate(ctx, 'SmoothSphereHalfSpaceForce', lines[cases.index((nums, info))], [bb[1 + 18 * i + 9: 1 + 18 * i + 12] for i in range(int(bb[0]))], F, arst)
         model = parse_floats(mo)[1:]
         if any(x != 0 for x in impl): nontriv += 1
         if not agree(impl, model):
@@ -408,6 +415,7 @@ def corr_ss(ctx, exe, drv, n):
             if info['cat'] in ('rest', 'approach', 'rebound') and fn < -1e-9 * max(1.0, abs(fn)) and pred_bad is None:
                 pred_bad = (lines[cases.index((nums, info))], fn)
     ctx.add_cases(len(lines), nontriv, [{'mode': 'SS', 'input': lines[0][:300], 'impl': parsed[0][2], 'model': parse_floats(mouts[0])}])
+    ar_finish(ctx, 'SmoothSphereHalfSpaceForce', arst)
     ctx.extra.setdefault('correspondence', {})['SS'] = {'cases': len(lines), 'disagreements': dis, 'attractive_cases_seen': attractive,
                                                        'categories': count([info['cat'] for nums, info in cases])}
     if first: ctx.broken.append(('correspondence:SmoothSphereHalfSpaceForce', 'body forces / pe differ from the model: input=%s impl=%s model=%s' % (first[0][:300], first[1], first[2])))
@@ -460,9 +468,11 @@ def corr_es(ctx, exe, drv, n):
     mouts, err = run_lines(drv, ml)
     if len(mouts) != len(ml):
         ctx.broken.append(('ocaml:C37_drv:ES', 'driver produced %d lines for %d cases' % (len(mouts), len(ml)))); return
+    arst = {}
     dis = 0; first = None; hist = {'fz_clamped_low': 0, 'fz_clamped_high': 0, 'limit_reached': 0, 'below_significant': 0}; pred = None
     for i, (((nums, info), p), mo) in enumerate(zip(zip(cases, parsed), mouts)):
         m = parse_floats(mo)       # fe fd fz mu limit elas damp fric p0new forceP
+        ar_predicate(ctx, 'ExponentialSpringForce', lines[i], [[0.0, 0.0, 0.0], p[6][15:18]], p[7], arst)
         fe, fd, fz = p[2][2], p[2][5], p[2][8]
         impl = [fe, fd, fz] + p[3][0:2] + p[4][0:9] + p[5][6:9] + p[5][0:3]
         h = p[0][1:]
@@ -487,6 +497,7 @@ def corr_es(ctx, exe, drv, n):
             elif abs(p[4][8]) > 1e-12 * scale: pred = (lines[i], 'friction-out-of-plane', 'z component %g' % p[4][8])
             elif norm(fr) > lim * (1 + 1e-9) + 1e-12 and lim >= h[0]: pred = (lines[i], 'friction-above-limit', '|fric| = %.17g > mu fz = %.17g' % (norm(fr), lim))
     ctx.add_cases(len(lines), sum(1 for p in parsed if p[2][8] != 0), [{'mode': 'ES', 'input': lines[0][:300], 'model': parse_floats(mouts[0])}])
+    ar_finish(ctx, 'ExponentialSpringForce', arst)
     ctx.extra.setdefault('correspondence', {})['ES'] = dict(cases=len(lines), disagreements=dis, **hist)
     if first: ctx.broken.append(('correspondence:ExponentialSpringForce', 'reported force parts differ from the model: input=%s impl=%s model=%s' % (first[0][:300], first[1], first[2])))
     if pred:
@@ -689,6 +700,32 @@ def corr_bk(ctx, exe, drv, n):
         ctx.broken.append(('predicate:BrickHalfSpacePenalty:' + pred[1], pred[2]))
         ctx.report('impl:BrickHalfSpacePenalty:' + pred[1], pred[2], {'probe_input': pred[0], 'failing_input': pred[0]})
 
+# ---- CompliantContactSubsystem: triangle-mesh sphere (elastic-foundation generator): action and reaction only
+def gen_me(r):
+    vt = r.choice([0.01, 0.1]) * U(r, 0.5, 2.0); onGround = r.random() < 0.5; plate = 1 if r.random() < 0.5 else 0
+    us = U(r, 0.2, 1.0); hmat = [logU(r, 1e3, 1e5), 0.0 if r.random() < 0.2 else U(r, 0.05, 1.0), us, us * U(r, 0, 1), 0.0 if r.random() < 0.4 else U(r, 0, 0.3)]
+    us = U(r, 0.2, 1.0); mat = [logU(r, 1e3, 1e5), 0.0 if r.random() < 0.2 else U(r, 0.05, 1.0), us, us * U(r, 0, 1), 0.0 if r.random() < 0.4 else U(r, 0, 0.3)]
+    fang, fp = ([0.0, 0.0, -0.5 * math.pi], [0.0] * 3) if plate == 0 else ([0.0] * 3, [0.0, -0.5, 0.0])      # surface y = 0 in the plate body
+    hang, hp, hw, hv = ([0.0] * 3,) * 4 if onGround else (vec(r, 0.15), vec(r, 0.05), vec(r, 0.5), vec(r, 0.5))
+    rad = U(r, 0.35, 0.6); depth = U(r, 0.03, 0.12)
+    oang = [0.0] * 3 if r.random() < 0.5 else vec(r, 0.5); op = vec(r, 0.1)
+    ang = vec(r, 1.2); R = rotxyz(ang); c = [U(r, -0.1, 0.1), rad - depth, U(r, -0.1, 0.1)]
+    Ro = rotxyz(oang); pb = sub(c, mv(R, op))                 # mesh centre = body origin + R * op
+    w = [0.0] * 3 if r.random() < 0.3 else vec(r, 2.0); v = [vt * logU(r, 0.1, 30) * r.choice([-1, 1]), U(r, -0.5, 0.3), vt * logU(r, 0.1, 30) * r.choice([-1, 1])]
+    nums = [vt, 1 if onGround else 0] + list(hang) + list(hp) + list(hw) + list(hv) + [0.0] * 3 + hmat + fang + fp + [plate, U(r, 0.05, 0.3)] + \
+           [rad, 2] + mat + [U(r, 0.05, 0.3)] + oang + op + ang + pb + w + v + [0.0] * 3
+    return nums, {'plate': plate, 'onGround': onGround}
+def corr_me(ctx, exe, drv, n):
+    r = ctx.rng; cases = [gen_me(r) for i in range(n)]
+    lines = ['ME ' + fmt(nums) for nums, info in cases]
+    outs, err = run_lines(exe, lines)
+    if len(outs) != len(lines) or any(not o.startswith('OK') for o in outs):
+        ctx.broken.append(('harness:C37_probe:ME', 'probe failed: %s %s' % ([o[:200] for o in outs if not o.startswith('OK')][:1], err[-300:]))); return
+    parsed = [secs(o) for o in outs]
+    cc_action_reaction(ctx, 'CompliantContactSubsystem:ElasticFoundation', exe, drv, lines, parsed)
+    ctx.add_cases(len(lines), sum(1 for p in parsed if any(x != 0 for x in p[4])), [{'mode': 'ME', 'input': lines[0][:200]}])
+    ctx.extra['action_reaction']['CompliantContactSubsystem:ElasticFoundation']['scenes_by_plate'] = count(['mesh-brick' if info['plate'] else 'half-space' for nums, info in cases])
+
 def run(ctx):
     ctx.build_repo()
     meta = ctx.translate('c37')
@@ -713,6 +750,7 @@ def run(ctx):
         corr_es(ctx, exe, drv, 500 * mult)
         corr_hz(ctx, exe, drv, 400 * mult)
         corr_bk(ctx, exe, drv, 400 * mult)
+        corr_me(ctx, exe, drv, 60 * mult)
     C37_ef.run_ef(ctx, 56 * (1 if quick else 8), 56 * (1 if quick else 8))
     if exe and drv:
         # known finding (DESIGN 7.20): replay the witness of C37_ss_normal_never_attractive_refuted on the real code
